@@ -20,6 +20,9 @@ type ContainerInfo struct {
 	Min, Max  uint64
 	Hash      string
 	Size      int
+	// footer section offsets
+	RefIndexOff, ObjOff, ObjIndexOff, LogOff, LogIndexOff uint64
+	ObjIDLen                                                int
 }
 
 // ValidateContainer decides "complete, valid table" at container level:
@@ -71,7 +74,20 @@ func ValidateContainer(b []byte) (*ContainerInfo, error) {
 	for i := 0; i < 5; i++ {
 		o := binary.BigEndian.Uint64(offs[8*i:])
 		if i == 1 {
+			ci.ObjIDLen = int(o & 31)
 			o >>= 5
+		}
+		switch i {
+		case 0:
+			ci.RefIndexOff = o
+		case 1:
+			ci.ObjOff = o
+		case 2:
+			ci.ObjIndexOff = o
+		case 3:
+			ci.LogOff = o
+		case 4:
+			ci.LogIndexOff = o
 		}
 		if o != 0 && o >= body {
 			return nil, fmt.Errorf("section offset %d (#%d) outside body of %d bytes", o, i, body)
